@@ -10,7 +10,7 @@ import json,os
 D=os.environ['D']
 if os.path.exists(D+'/out.json'):
     d=json.load(open(D+'/out.json'))
-    print('runs',d['runs'],'nontrivial',d['nontrivial'],'wall',round(d['wall_s'],2),'steps',d['steps'],'sim_s',d['sim_ns']/1e9,'inconclusive',d['inconclusive'])
+    print('runs',d['runs'],'nontrivial',d['nontrivial'],'wall',round(d['wall_s'],2),'steps',d['steps'],'sim_s',d.get('sim_s'),'inconclusive',d['inconclusive'])
     print('faults',d['faults'])
     print('probes',d['probes'])
     print('yields',d['yield_hits'])
